@@ -627,6 +627,11 @@ def registerDefs (ctx : Ctx) (pfx : String) (global : Bool) (st : Stmt) : Option
   | .funcDef name pub rets params _ => ctx.addFunc pfx global ⟨name, rets, params, pub⟩
   | _ => some ctx
 
+/-- some name occurs twice in the list -/
+def hasDupNames : List Tok → Bool
+  | [] => false
+  | t :: rest => rest.any (fun u => u.val == t.val) || hasDupNames rest
+
 /-- `evaluateVarDefinition` -/
 def evalVarDefinition (fuel : Nat) (ctx : Ctx) : PM Stmt := do
   let short ← isShortVarInit
@@ -644,7 +649,8 @@ def evalVarDefinition (fuel : Nat) (ctx : Ctx) : PM Stmt := do
   if n > 1 then do
     let already := (names.filter fun t => !(isNewVar ctx pfx t.val)).length
     if already > 0 && !short then err
-    else if already == n then err else pure ()
+    else if already == n then err
+    else if hasDupNames names then err else pure ()        -- fix ebdb224: a definition lists every name once
   else
     if !(isNewVar ctx pfx first.val) then err else pure ()
   let specified ← (if short then do
